@@ -147,7 +147,7 @@ def tlv_gen_line(c):
 
 def tlv_gen_canon(c):
     gen = impl()[1]
-    r = core.call(gen, dict(c["d"]), c["tl"], c["ll"], c["tp"], c["lp"])
+    r = core.call(gen, mapping_of(c), c["tl"], c["ll"], c["tp"], c["lp"])
     return "ok " + enc_str(r[1]) if r[0] == "ok" else "err " + r[1]
 
 
@@ -308,7 +308,7 @@ def fwf_load_canon(c):
 # ---------------------------------------------------------------------------
 # generators
 # ---------------------------------------------------------------------------
-TAGS = ["", "A", "B", "AB", "01", "Tag", "T9 ", "é", "-1", "abcd", "abcde"]
+TAGS = ["", "A", "B", "AB", "01", "Tag", "T9 ", "é", "-1", "abcd", "abcde", "?A", "?1", "1", "a/b", "[0]", "*", ".."]
 PADS_T = [" ", " ", "_", "0", ".", "é"]
 PADS_L = ["0", "0", "0", " ", " ", "\t", "\xa0", "x", "-", "+", "1", "_"]
 
@@ -338,7 +338,10 @@ def gen_tlv_case(rng):
                 seen.add(t)
                 out.append([t, v])
         d = out
-    return {"d": d, "tl": tl, "ll": ll, "tp": rng.choice(PADS_T), "lp": rng.choice(PADS_L)}
+    c = {"d": d, "tl": tl, "ll": ll, "tp": rng.choice(PADS_T), "lp": rng.choice(PADS_L)}
+    if rng.random() < 0.3:
+        c["cls"] = "n0"
+    return c
 
 
 SOUP = ["0", "0", "1", "2", "5", "9", "-", "+", " ", "a", "A", "_", "\t", "é"]
@@ -369,10 +372,12 @@ INT_RARE = ["\u0663", "\uff11", "\u20ac"]  # outside the model's scope (Unicode 
 
 NAMES = ["a", "b", "c", "id", "name", "zz"]
 ROW_AL = "ab 01X-9é"
+ROW_ODD = "\x0b\x0c\x1c\x1d\x1e\x85\u2028\u2029"  # line breaks for str.splitlines(), ordinary characters for a file read
 
 
 def gen_row_text(rng):
-    return "".join(rng.choice(ROW_AL) for _ in range(rng.choice([0, 1, 3, 5, 6, 8, 10, 12])))
+    al = ROW_AL + ROW_ODD if rng.random() < 0.1 else ROW_AL
+    return "".join(rng.choice(al) for _ in range(rng.choice([0, 1, 3, 5, 6, 8, 10, 12])))
 
 
 def gen_pfmt(rng, allow_empty=True):
@@ -478,6 +483,17 @@ def gen_load_case(rng):
 # ---------------------------------------------------------------------------
 # C: the statement on the implementation
 # ---------------------------------------------------------------------------
+def mapping_of(c):
+    """the str-to-str mapping of a TLV case: a plain dict, or the library's own n0dict (cls == 'n0'), for which
+    d[key] is an xpath lookup while items() is not"""
+    d = dict((k, v) for k, v in c["d"])
+    if c.get("cls") == "n0":
+        from n0struct import n0dict
+
+        return n0dict(d)
+    return d
+
+
 def fits(c):
     return all(len(t) <= c["tl"] and len(str(len(v))) <= c["ll"] for t, v in c["d"])
 
@@ -486,7 +502,7 @@ def check_tlv_roundtrip(c):
     """round trip under Fits, refusal otherwise"""
     parse_tlv, gen = impl()[0], impl()[1]
     d = dict((k, v) for k, v in c["d"])
-    r = core.call(gen, d, c["tl"], c["ll"], c["tp"], c["lp"])
+    r = core.call(gen, mapping_of(c), c["tl"], c["ll"], c["tp"], c["lp"])
     if not fits(c):
         if r[0] == "ok":
             return {"what": "an entry does not fit its field but text was emitted", "text": r[1]}
@@ -748,7 +764,7 @@ def _run(ctx):
     rng = ctx.rng("parse")
     pcases = [{"s": s, "tl": tl, "ll": ll} for s, tl, ll in [("AA-05", 2, 3), ("0-2", 1, 2), ("AA005ab", 2, 3), ("", 2, 3), ("A", 2, 3), ("01002P2020020103005100000900201220021023007DEFAULT", 2, 3), ("002P200201005100000020100210007DEFAULT", 0, 3), ("5", 0, 0), ("a", 1, 0), ("+0+0", 0, 2), ("0_1x", 0, 3)]]
     for c in gcases:
-        r = core.call(gen_tlv, dict((k, v) for k, v in c["d"]), c["tl"], c["ll"], c["tp"], c["lp"])
+        r = core.call(gen_tlv, mapping_of(c), c["tl"], c["ll"], c["tp"], c["lp"])
         if r[0] == "ok":
             s = r[1]
             if len(s) > 400:
